@@ -303,6 +303,29 @@ def n2_retain(src, log):
     return src
 
 
+def n4_iter_any(src, log):
+    """RECV.iter().any(|P| B)  ->  { short-circuiting index loop }   (documented semantics of Iterator::any on a slice iterator: the elements
+    are visited in order, the closure is called on a reference to each, the first `true` ends the walk). RECV must be a plain path
+    (identifiers, `.`, `&`), the closure a literal with a single identifier parameter."""
+    while True:
+        m = mask(src)
+        mm = re.search(r'([A-Za-z_][A-Za-z0-9_\.]*)\s*\.iter\(\)\s*\.any\s*\(', m)
+        if not mm: break
+        recv = src[mm.start(1):mm.end(1)]
+        open_p = mm.end() - 1
+        close_p = match_close(m, open_p, '(', ')')
+        inner = src[open_p + 1:close_p].strip()
+        cm = re.match(r'\|\s*([a-z_][A-Za-z0-9_]*)\s*\|\s*(.*)$', inner, re.S)
+        if not cm:
+            raise ValueError('N4: the argument of any() is not a closure literal with one identifier parameter: ' + inner[:40])
+        pat, body = cm.group(1), cm.group(2).strip()
+        rep = ('{ let mut __any = false; let mut __j: usize = 0; while __j < %s.len() { let %s = &%s[__j]; '
+               'if %s { __any = true; break; } __j += 1; } __any }') % (recv, pat, recv, body)
+        src = src[:mm.start(1)] + rep + src[close_p + 1:]
+        log.append('N4 rewrote %s.iter().any(|%s| ..) into a short-circuiting index loop' % (recv, pat))
+    return src
+
+
 def n3_for_user_iter(src, log, callee_names):
     """for P in CALL(..) { B }  ->  let mut __it = CALL(..); loop { match __it.next() { None => break, Some(P) => { B } } }
     only for loops whose iterable is a call of one of callee_names (user-defined iterators)."""
